@@ -17,13 +17,14 @@ import (
 	"strconv"
 	"strings"
 	"testing"
+	"time"
 
 	command "github.com/rqlite/rqlite/v10/command/proto"
 	sqlite3 "github.com/mattn/go-sqlite3"
 )
 
 type c13Stmt struct {
-	kind string // w r R xf pf e q Q qf p ar sp sa sq b c rb
+	kind string // w r R xf pf e q Q qf p ar to sp sa sq b c rb
 	tok  int
 }
 
@@ -38,7 +39,25 @@ func (s c13Stmt) token() string {
 func (s c13Stmt) isWrite() bool { return s.kind == "w" || s.kind == "r" || s.kind == "R" }
 func (s c13Stmt) isCtl() bool   { return s.kind == "b" || s.kind == "c" || s.kind == "rb" }
 func (s c13Stmt) fails() bool {
-	return s.kind == "xf" || s.kind == "pf" || s.kind == "qf" || s.kind == "p" || s.kind == "sp" || s.kind == "sa" || s.kind == "sq" || s.kind == "ar"
+	return s.kind == "xf" || s.kind == "pf" || s.kind == "qf" || s.kind == "p" || s.kind == "sp" || s.kind == "sa" || s.kind == "sq" || s.kind == "ar" || s.kind == "to"
+}
+
+// c13SlowRead is slow BY CONSTRUCTION (it counts to 3*10^8: tens of seconds if nothing stops it), so the
+// request's deadline always fires while it runs; it writes nothing, so SQLite leaves an open
+// transaction open when it is interrupted.
+const c13SlowRead = "WITH RECURSIVE c(x) AS (SELECT 1 UNION ALL SELECT x + 1 FROM c WHERE x < 300000000) SELECT count(*) FROM c"
+
+// c13Deadline is the time a request holding a `to` statement gets; the statements before the slow read
+// need a fraction of it (if they did not get it - a loaded machine - the case is abandoned, see c13RunCase).
+const c13Deadline = 400 * time.Millisecond
+
+func (r c13Req) hasTimeout() bool {
+	for _, s := range r.stmts {
+		if s.kind == "to" {
+			return true
+		}
+	}
+	return false
 }
 
 type c13Req struct {
@@ -132,6 +151,8 @@ func c13SQL(s c13Stmt, v int) *command.Statement {
 			"INSERT OR ROLLBACK INTO u(k) VALUES(0)",
 			"INSERT INTO g(x) VALUES(1)", // BEFORE INSERT trigger: RAISE(ROLLBACK, …)
 			"INSERT OR ROLLBACK INTO t(tok) VALUES(888888),(NULL)"}[v%4]}
+	case "to":
+		return &command.Statement{Sql: c13SlowRead}
 	case "sp":
 		// a RETURNING statement marked as a query which does not even prepare
 		return &command.Statement{ForceQuery: true, Sql: []string{
@@ -271,10 +292,17 @@ func c13RunReq(d *DB, r c13Req, salt int) c13Obs {
 	for i, s := range r.stmts {
 		req.Statements = append(req.Statements, c13SQL(s, salt+i))
 	}
+	ctx := context.Background()
+	if r.hasTimeout() {
+		// the CALLER's context runs out while the slow read is running
+		var cancel context.CancelFunc
+		ctx, cancel = context.WithTimeout(ctx, c13Deadline)
+		defer cancel()
+	}
 	if r.path == "exec" {
-		o.results, o.err = d.Execute(req, false)
+		o.results, o.err = d.ExecuteWithContext(ctx, req, false)
 	} else {
-		o.results, o.err = d.Request(req, false)
+		o.results, o.err = d.RequestWithContext(ctx, req, false)
 	}
 	o.after = c13Committed(d)
 	o.openAfter, o.viewAfter = c13RW(d)
@@ -530,6 +558,9 @@ func c13GenStmts(r *vfRng, n int, allowCtl bool, nextTok *int) []c13Stmt {
 	return ss
 }
 
+// c13TimeoutShare: percentage of rollback-on-error load-like requests that hold a timeout
+var c13TimeoutShare = vfScale(12, 2)
+
 func c13GenReq(r *vfRng, nextTok *int) c13Req {
 	q := c13Req{path: []string{"exec", "request"}[r.Intn(2)]}
 	shape := r.Intn(100)
@@ -557,6 +588,12 @@ func c13GenReq(r *vfRng, nextTok *int) c13Req {
 			pre = p2
 		}
 		body := c13GenStmts(r, 1+r.Intn(5), false, nextTok)
+		if q.rb && r.Chance(c13TimeoutShare) {
+			// the caller's deadline runs out during a slow read somewhere in the body (a few cases only:
+			// each costs the deadline)
+			k := r.Intn(len(body) + 1)
+			body = append(append(append([]c13Stmt(nil), body[:k]...), c13Stmt{kind: "to"}), body[k:]...)
+		}
 		q.stmts = append(append(append(pre, c13Stmt{kind: "b"}), body...), c13Stmt{kind: "c"})
 	default: // plain request, anything goes
 		q.rb = r.Chance(20)
@@ -565,8 +602,45 @@ func c13GenReq(r *vfRng, nextTok *int) c13Req {
 	return q
 }
 
+// c13TimeoutFired: in a request whose first failing statement is the slow read, did the deadline fire
+// there - every statement before it answered without error, the slow read with an error, nothing after?
+func c13TimeoutFired(r c13Req, o c13Obs) bool {
+	f := 0
+	for _, s := range r.stmts {
+		if s.kind == "e" {
+			continue
+		}
+		if s.fails() {
+			if s.kind != "to" {
+				return true // the slow read is never reached: an ordinary case
+			}
+			break
+		}
+		f++
+	}
+	if len(o.results) != f+1 || !c13IsErr(o.results[f]) {
+		return false
+	}
+	for _, res := range o.results[:f] {
+		if c13IsErr(res) {
+			return false
+		}
+	}
+	return true
+}
+
 // c13RunCase executes op lines on a fresh database; returns impl outputs.
 func c13RunCase(ops []string, rep *vfReport) []string {
+	out, _ := c13RunCaseKept(ops, rep)
+	for len(out) < len(ops) {
+		out = append(out, "abandoned")
+	}
+	return out
+}
+
+// c13RunCaseKept: as c13RunCase; a case is cut short (kept < len(ops)) at a request with a timeout whose
+// deadline did not fire during the slow read (the machine was too slow for the statements before it).
+func c13RunCaseKept(ops []string, rep *vfReport) ([]string, int) {
 	d, done := c13NewDB()
 	defer done()
 	var out []string
@@ -581,8 +655,17 @@ func c13RunCase(ops []string, rep *vfReport) []string {
 			continue
 		}
 		o := c13RunReq(d, q, i)
+		if q.hasTimeout() && !c13TimeoutFired(q, o) {
+			if rep != nil {
+				rep.Count("timeout-case-abandoned:deadline-did-not-fire-in-the-slow-read")
+			}
+			return out, i
+		}
 		out = append(out, c13Canon(q, o))
 		if rep != nil {
+			if q.hasTimeout() {
+				rep.Count("timeout-case")
+			}
 			c13Oracle(rep, q, o, ops[:i+1])
 			nontrivial := false
 			for _, s := range q.stmts {
@@ -609,11 +692,11 @@ func c13RunCase(ops []string, rep *vfReport) []string {
 			}
 		}
 	}
-	return out
+	return out, len(ops)
 }
 
 func TestVerifC13(t *testing.T) {
-	rep := vfNewReport("C13", "generated cases: fresh WAL database, 1-3 requests of 1-8 statements (writes, RETURNING with/without ForceQuery, constraint failures incl. a multi-row statement failing on its last row, statements that are not atomic on their own - several commands in one text, INSERT OR FAIL - failing part-way, statements that make SQLite roll the transaction back by itself (INSERT OR ROLLBACK, RAISE(ROLLBACK) in a trigger), statements run through the query helper whose query fails to start (missing table/column, too few positional/named parameters), prepare failures, empty, queries, failing query, BEGIN/COMMIT/ROLLBACK) × Transaction on/off × RollbackOnError on/off × db.Execute / db.Request; a request is non-trivial when it has ≥2 statements one of which fails; distinct by abstract request line")
+	rep := vfNewReport("C13", "generated cases: fresh WAL database, 1-3 requests of 1-8 statements (writes, RETURNING with/without ForceQuery, constraint failures incl. a multi-row statement failing on its last row, statements that are not atomic on their own - several commands in one text, INSERT OR FAIL - failing part-way, statements that make SQLite roll the transaction back by itself (INSERT OR ROLLBACK, RAISE(ROLLBACK) in a trigger), statements run through the query helper whose query fails to start (missing table/column, too few positional/named parameters), prepare failures, empty, queries, failing query, BEGIN/COMMIT/ROLLBACK; in rollback-on-error requests also a slow read during which the CALLER's context deadline expires) × Transaction on/off × RollbackOnError on/off × db.Execute / db.Request; a request is non-trivial when it has ≥2 statements one of which fails; distinct by abstract request line")
 	defer rep.Write()
 
 	if ops, ok := vfReplayOps(); ok {
@@ -641,13 +724,18 @@ func TestVerifC13(t *testing.T) {
 		{"reset", "req request 1 0 w1,sq,w2"}, {"reset", "req exec 1 0 w1,sq,w2"}, {"reset", "req request 1 0 w1,sp,w2"},
 		{"reset", "req exec 0 1 b,w1,sa,w2,c"}, {"reset", "req request 0 1 b,w1,sq,w2,c"},
 		{"reset", "req exec 1 0 w1,c,w2,xf"}, {"reset", "req request 1 0 w1,c,xf,w2"}, {"reset", "req exec 0 1 w1,p2,w3"},
+		// the request's context expires during a slow read inside an explicit transaction; a later COMMIT finds none
+		{"reset", "req exec 0 1 b,w1,to,w2,c", "req exec 0 0 c", "req exec 0 0 w3"},
+		{"reset", "req request 0 1 b,w1,to,w2,c", "req request 0 0 c", "req request 1 0 w3"},
+		{"reset", "req request 0 1 w1,b,w2,Q,to,c", "req exec 0 0 q,c"}, {"reset", "req exec 0 1 w1,to,w2"},
 	}
 	r := vfNewRng(13)
 	cases := vfScale(350, 30000)
 	var segOps, segImpl [][]string
 	for _, c := range corpus {
-		segOps = append(segOps, c)
-		segImpl = append(segImpl, c13RunCase(c, rep))
+		out, kept := c13RunCaseKept(c, rep)
+		segOps = append(segOps, c[:kept])
+		segImpl = append(segImpl, out)
 	}
 	for c := 0; c < cases; c++ {
 		ops := []string{"reset"}
@@ -655,7 +743,8 @@ func TestVerifC13(t *testing.T) {
 		for n := 1 + r.Intn(3); n > 0; n-- {
 			ops = append(ops, c13GenReq(r, &tok).opLine())
 		}
-		out := c13RunCase(ops, rep)
+		out, kept := c13RunCaseKept(ops, rep)
+		ops = ops[:kept]
 		if c < 3 {
 			rep.Sample(map[string]interface{}{"ops": ops, "impl": out})
 		}
